@@ -50,7 +50,7 @@ fn frame(v: &V, addr: u32) -> Frame {
         4 => frames::short_ap(4, b6_for(v.base, v.code), addr),
         20 => {
             let b6 = b6_for(v.base, v.code);
-            let mb = match v.base {
+            let mb = match v.base.min(99) {
                 0 => 0,
                 1 => 0x00FF_FFFF_FFFF_FFFF,
                 2 => frames::mb_bds20(frames::callsign_codes("ALT20")),
@@ -79,6 +79,8 @@ fn b6_for(base: u32, code: u32) -> u32 {
     match base {
         0 => frames::surv_bits(0, 0, 0, code),
         1 | 2 => frames::surv_bits(7, 31, 63, code),
+        // every flight-status value on its own (on the ground, alert, SPI)
+        k if k >= 100 => frames::surv_bits(k - 100, 0, 0, code),
         k => (1u32 << (13 + (k - 3))) | code,
     }
 }
@@ -93,6 +95,13 @@ fn lines(v: &V, addr: u32) -> Vec<Vec<u8>> {
             _ => {}
         }
         l.push(hexline(&frames::df4(addr, frames::ac13_for_alt(SENTINEL_ALT as i32))));
+        if v.pre == 5 {
+            // the sentinel altitude came with the very position (same parity, same CPR fields) that the frame under
+            // test repeats with another altitude
+            l.clear();
+            l.push(hexline(&frames::df11(5, addr, 0)));
+            l.push(hexline(&frames::df17(5, addr, frames::me_airpos(v.tc, 0, 0, frames::ac12_for_alt(SENTINEL_ALT as i32), 0, 0, 93000, 51372))));
+        }
         if v.pre == 4 {
             l.insert(0, hexline(&frames::df11(5, addr, 0)));
             l.push(hexline(&frames::df17(5, addr, frames::me_surfpos(6, 20, 1, 60, 0, 0, 93006, 51380))));
@@ -169,10 +178,19 @@ fn run(ctx: &mut Ctx) {
                 }
             }
         }
+        // flight status 1..7 (the altitude is the same whatever the status says)
+        for fs in 1..8u32 {
+            for update in [false, true] {
+                let step = if ctx.tier.thorough() { 1 } else { 5 };
+                for code in (0..8192).step_by(step) {
+                    items.push(V { df, tc: 0, code, base: 100 + fs, update, pre: 0 });
+                }
+            }
+        }
     }
     for tc in 9..=18 {
         for base in 0..nb {
-            for (update, pre) in [(false, 0u32), (true, 0), (true, 2), (true, 4)] {
+            for (update, pre) in [(false, 0u32), (true, 0), (true, 2), (true, 4), (true, 5)] {
                 if pre > 0 && base > 0 {
                     continue;
                 }
